@@ -67,9 +67,12 @@ CHECKS = {
     "C13": ("model_checking", "6/C13",
             "Lifecycle.tla (MC, and a TLAPS proof of its invariants for every optimum: proofs/Lifecycle_proofs.tla) generates every "
             "fault schedule; injected into the real solver wrapper; traces replayed through Lifecycle's actions by Trace_Lifecycle.tla; "
-            "KModel.tla: one k-model object solved repeatedly (solve / tighten / get sequences from Gen_KModel.tla, Trace_KModel.tla)",
+            "KModel.tla: one k-model object solved repeatedly (solve / tighten / get sequences from Gen_KModel.tla, Trace_KModel.tla); "
+            "NumPaths.tla: the generic optimiser (MC with liveness; every complete behaviour replayed into the real class around a "
+            "scripted model, real k-models with injected statuses; logged runs replayed through NumPaths!Run by Trace_NumPaths.tla)",
             "Every position x every inconclusive status (native time limit, interrupt, unknown, custom timeout) of every "
-            "minimum search, nested helper searches, k-models and NumPathsOptimization; the observed invocation trace must be "
+            "minimum search, nested helper searches, k-models, MinErrorFlow (both runs) and NumPathsOptimization; backend runs made to overrun "
+            "the library's own SIGALRM time limit; the observed invocation trace must be "
             "a behaviour of the specification and end in the specified outcome."),
     "C14": ("model_checking", "6/C14",
             "Euler.tla: the reconstruction as a state machine, model-checked for every pop order (DoneOK, NeverOveruse, "
